@@ -139,5 +139,20 @@ CHECKS = {
                 "that substep's field, and nothing after the first failure; the default 'Deformation Gradient' cell datum is the quadrature mean of F.",
         "note": "the bytes on disk (vtk / vtu / xdmf / h5 written by meshio, h5py, VTK) are outside the claim: they cannot be encoded.",
     },
+    "C09": {
+        "text": "Decided in residual form (the Newton iteration is not symbolic): on distorted meshes with interior points of every listed family the nodal values u = (Fbar - I) X of a symbolic affine map give "
+                "F = Fbar at every quadrature point; with a uniform stress Pbar (what any material returns at uniform F; 9 symbolic components) the internal forces vanish at all interior points (patch test) and, "
+                "for the partitions produced by the real dof.uniaxial / dof.biaxial, on all free unknowns when Pbar has only the loaded normal components; tools.force on the moved face equals Pbar N A0. "
+                "ViewMaterial uniaxial / planar / biaxial with the root finder as a contract stub (roles swapped: the transverse stretch is free and the bulk modulus is defined such that it is the root, so "
+                "fun(root) = 0 is an obligation) and ViewMaterialIncompressible return the analytic first Piola-Kirchhoff stress of the real NeoHooke model.",
+        "note": "so: if the solver converges, it converges to a state satisfying the same discrete equations as the affine field; uniqueness / convergence and ramp subdivision of a real solve are outside.",
+    },
+    "C10": {
+        "text": "Plane-strain body vs the unit-thickness hexahedron slab (mesh.expand) with the displacement copied to both layers: in-plane forces equal the sum over the layers and the 2-D stiffness equals the "
+                "condensed slab stiffness for an abstract material; axisymmetric nodal forces are the derivative of sum_q W(F_q) 2 pi R_q dV_q with an abstract energy; the condensed SolidBodyNearlyIncompressible at "
+                "a settled state has the same u-force vector as the explicit (u,p,J) NearlyIncompressible formulation at p* = bulk (J*-1), J* = v/V, where the explicit p- and J-equations vanish, and its stored "
+                "p, J are these values; a uniform-grid region gives the same h, dhdX, dV and the same assembled vector / matrix as the general region on a grid with symbolic spacing.",
+        "note": "convergence to the revolved 3-D model is a limit statement (outside); the slab comparison identifies deformation gradients that agree to 2^-40 (continuous material assumed).",
+    },
 }
 NOT_APPLICABLE = {}
